@@ -22,7 +22,8 @@ SEED = int(os.environ.get("VERIF_SEED", "1") or 1)
 def write_cfg(path, spec, constants, invariants, view="view", constraint=None, action_constraint="Export", props=()):
     with open(path, "w") as f:
         f.write("SPECIFICATION %s\n" % spec)
-        f.write("CONSTANTS\n")
+        if constants:
+            f.write("CONSTANTS\n")
         for k, v in constants.items():
             f.write("  %s = %s\n" % (k, v))
         if view:
@@ -118,11 +119,11 @@ class Pool:
         return total, ok, bad
 
 
-def run_tlc_export(name, module, cfgpath, outdir, tier, asan_stride, tlc_workers=None, timeout=3000, max_scripts=None, simulate=None, stride=1):
+def run_tlc_export(name, module, cfgpath, outdir, tier, asan_stride, tlc_workers=None, timeout=3000, max_scripts=None, simulate=None, stride=1,
+                   exes=None):
     """Run TLC on module/cfg, stream every exported behaviour into plain (all) and
     sanitizer (every asan_stride-th) driver pools built from the working tree."""
-    exe_plain = vlib.build_driver("plain")
-    exe_asan = vlib.build_driver("asan")
+    exe_plain, exe_asan = exes if exes else (vlib.build_driver("plain"), vlib.build_driver("asan"))
     nplain = max(2, NCPU - 6)
     nasan = 4
     pool = Pool(exe_plain, nplain, outdir, "plain")
@@ -247,6 +248,8 @@ def owners(div):
         if fn in ("stop", "wait", "destroy") and kind == "hang":
             own |= {"C01"}
         return own
+    if fn in ("start", "fork", "clone_start", "method", "consts") and isinstance(div.get("call"), dict) and "op" in div.get("call"):
+        return {"C19"}
     keys = div.get("keys") or [div.get("key", "")]
     exps = div.get("exp") if isinstance(div.get("exp"), dict) and div.get("keys") else {div.get("key", ""): div.get("exp")}
     own = set()
@@ -584,6 +587,13 @@ def fam_faults(tier, outdir):
             "asan_replayed": len(averd), "replay_stride": 1, "fault_points": sum(len(m_[2]) for m_ in meta_l[:1]), "records_validated_by_tlc": len(recs)}
 
 
+def fam_wrapper(tier, outdir):
+    cfg = os.path.join(outdir, "Wrapper.cfg")
+    write_cfg(cfg, "Spec", {}, ["Injective"], view=None, action_constraint=None)
+    exe = vlib.build_cxx("asan")
+    return run_tlc_export("wrapper", "Wrapper", cfg, outdir, tier, asan_stride=1, tlc_workers=8, exes=(vlib.build_cxx("plain"), exe))
+
+
 def fam_destroy(tier, outdir):
     consts = {"Handles": "{1}", "MaxTime": 5, "MaxCalls": 4, "PipeCap": 4, "MaxOut": 0, "ExitCodes": "{3}", "TermDelay": 1,
               "DlOpts": "{0, 2}", "Timeouts": "{0, 2}", "ThirdActs": '"Small"'}
@@ -643,7 +653,7 @@ def run_tlc_plain(name, module, cfgpath, outdir, timeout=1500, workers=8):
     return st
 
 
-FAMILIES = {"faults": fam_faults, "env": lambda t, o: fam_launch("env", t, o), "wiring": lambda t, o: fam_launch("wiring", t, o), "options": lambda t, o: fam_launch("options", t, o),
+FAMILIES = {"wrapper": fam_wrapper, "faults": fam_faults, "env": lambda t, o: fam_launch("env", t, o), "wiring": lambda t, o: fam_launch("wiring", t, o), "options": lambda t, o: fam_launch("options", t, o),
             "destroy": fam_destroy, "status": fam_status, "run": fam_run, "stop": fam_stop, "life": fam_life, "poll": fam_poll, "stream": fam_stream, "drain": fam_drain}
 
 PROPS = {
@@ -657,6 +667,9 @@ PROPS = {
     "C13": {"families": ["options"], "title": "options rejected up front, accepted as documented"},
     "C04": {"families": ["faults"], "title": "start is all-or-nothing and reports the real cause"},
     "C05": {"families": ["faults", "life"], "title": "no leak, no foreign or double close"},
+    "C19": {"families": ["wrapper"], "title": "reproc++ is a faithful mapping of the C API",
+            "level_text": "TLC enumerates the option records, wrapper methods and C return values of spec/Wrapper.tla (every field with several pairwise distinguishable values) and predicts what the C layer must receive and what the wrapper must return; each point is executed through the real reproc++ sources over a recording mock of the C API and compared.",
+            "technique": "TLA+ mapping model (Wrapper.tla) enumerated by TLC; every point replayed through reproc++ over a mock C API (conformance)"},
     "C14": {"families": ["life"], "title": "life cycle; misuse errors, never UB"},
     "C02": {"families": ["stream"], "title": "stream fidelity"},
     "C15": {"families": ["destroy"], "title": "destroy applies the stop policy"},
